@@ -291,7 +291,7 @@ def run(F, res, tier):
                 ok, why = False, "scope argument is %s" % cls
             res.ob("S2", "%s/%s/%d" % (f.path.rsplit("ExprScopes::", 1)[-1], c.rsplit("::", 1)[-1], ordn),
                    "this visit runs in the current scope, or in a fresh scope nested directly in it", ok, where=where, how=why)
-    res.floor("recursive visits in traverse_expr", n, 17)
+    res.floor("recursive visits in traverse_expr", n, 12)
     # one scope per case clause (allocated in the per-clause closure, or in the loop over the clauses), one per lambda
     EXPR = "ide::def::module::Expr"
     de = FL.Defs(te)
@@ -493,9 +493,8 @@ def resolver_provenance(F, res, only=None, rule="S4"):
             continue
         if any(callee(t) == "ide::def::resolver::Resolver::resolve_name" for b, t in f.calls()):
             roots.setdefault(_re.sub(r"(::\{closure#\d+\})+$", "", p_), []).append(p_)
+    sites = []
     for root, members in sorted(roots.items()):
-        if only and not root.startswith(only):
-            continue
         i = -1
         for p_ in sorted(members):
             f = F.fns[p_]
@@ -504,16 +503,65 @@ def resolver_provenance(F, res, only=None, rule="S4"):
                 if callee(t) != "ide::def::resolver::Resolver::resolve_name":
                     continue
                 i += 1
-                n += 1
-                kind = resolver_kind(F, f, d, t["args"][0])
-                want = RESOLVER_TABLE.get((root, i))
-                if want is None:
-                    res.ob(rule, "resolver/%s/%d" % (root, i), "this name lookup uses the right kind of resolver", False, where=f.loc(t["ln"]),
-                           how="new resolve_name call site (resolver: %s) that is not in the reviewed table" % kind)
-                    continue
-                res.ob(rule, "resolver/%s/%d" % (root, i), "this name lookup uses a resolver that sees %s (%s)" % (
-                    "the local binders in scope" if want[0] == "expr" else "the module scope", want[1]), kind == want[0], where=f.loc(t["ln"]),
-                    how="resolver comes from %s" % kind, reviewed=(kind == want[0]))
+                sites.append((root, i, f, t, resolver_kind(F, f, d, t["args"][0])))
+    # which table entry answers for which site: by ordinal when the function still has as many lookups as reviewed,
+    # otherwise by resolver kind (a lookup that moved out into a helper renumbers the ones after it)
+    by_root = {}
+    for r, i, f_, t_, k_ in sites:
+        by_root.setdefault(r, []).append((i, k_))
+    assign, present = {}, set()
+    for r, lst in by_root.items():
+        ents = sorted(j for (r2, j) in RESOLVER_TABLE if r2 == r)
+        if len(ents) == len(lst):
+            for i, k_ in lst:
+                assign[(r, i)] = (r, i)
+                present.add((r, i))
+        else:
+            free = list(ents)
+            for i, k_ in lst:
+                hit = [j for j in free if RESOLVER_TABLE[(r, j)][0] == k_]
+                if hit:
+                    assign[(r, i)] = (r, hit[0])
+                    present.add((r, hit[0]))
+                    free.remove(hit[0])
+    used = set()
+
+    def callers_of_root(r, depth=2):
+        out, cur = set(), {r}
+        for _ in range(depth):
+            nxt = set()
+            for c in cur:
+                for q in F.with_closures(c):
+                    for f_, b_, t_ in F.callers_of(lambda c_, q=q: c_ == q):
+                        nxt.add(_re.sub(r"(::\{closure#\d+\})+$", "", f_.path))
+            out |= nxt
+            cur = nxt
+        return out
+    for root, i, f, t, kind in sites:
+        if only and not root.startswith(only):
+            continue
+        n += 1
+        want = RESOLVER_TABLE.get(assign.get((root, i), (None, None)))
+        moved_from = None
+        if want is None:
+            # the lookup may have moved into a helper: an entry of a caller whose own site is gone, of the same kind
+            for c in sorted(callers_of_root(root)):
+                for (r2, j), w2 in sorted(RESOLVER_TABLE.items()):
+                    if r2 == c and (r2, j) not in present and (r2, j) not in used and w2[0] == kind:
+                        want, moved_from = w2, (r2, j)
+                        break
+                if want:
+                    break
+            if moved_from:
+                used.add(moved_from)
+        if want is None:
+            res.ob(rule, "resolver/%s/%d" % (root, i), "this name lookup uses the right kind of resolver", False, where=f.loc(t["ln"]),
+                   how="new resolve_name call site (resolver: %s) that is not in the reviewed table" % kind)
+            continue
+        res.ob(rule, "resolver/%s/%d" % (root, i), "this name lookup uses a resolver that sees %s (%s)%s" % (
+            "the local binders in scope" if want[0] == "expr" else "the module scope", want[1],
+            " [reviewed in %s before the code moved]" % moved_from[0].rsplit("::", 1)[-1] if moved_from else ""), kind == want[0], where=f.loc(t["ln"]),
+            how="resolver comes from %s" % kind, reviewed=(kind == want[0]))
     res.floor("resolve_name call sites in crate ide", n, 8 if not only else 1)
 
 
